@@ -1,3 +1,224 @@
-import Rtcp.Lemmas.Safe6
+/-
+  C04 — Unmarshal extracts the RFC-specified fields from any valid encoding.
+  (1) every RFC layout of C03 decodes to its value (decode ∘ render(spec) = id on well-formed values);
+  (2) encodings this library never produces: non-zero reserved bits in FIR entries, not-received RFC 8888 metric
+      blocks with stray bits, unnormalised REMB mantissa/exponent pairs (C14.dec_exact), alternative TWCC chunkings
+      (C13.chunking_invariant), unknown XR block types (C15.unknown_verbatim / block_roundtrip), BYE with and without
+      a reason;
+  (3) an SR, RR, SDES or BYE whose header count claims more elements than the packet holds is rejected.
+  Known findings: REMB mantissa 0; CCFB num_reports semantics; SLI packet type 206 is not accepted by the SLI decoder.
+-/
+import Rtcp.Proofs.C03
+import Rtcp.Proofs.C02
 namespace Rtcp.C04
+open Rtcp Gen Out Spec
+set_option linter.unusedSimpArgs false
+set_option linter.unusedVariables false
+
+/-! ### (1) the RFC layouts decode to their values -/
+
+theorem sr_dec_spec (v : SenderReport) (h : v.WF) : SenderReport.dec (render (Spec.sr v)) = .ok v := by
+  have h1 := C03.sr_wire v h; have h2 := SenderReport.roundtrip v h; rw [h1, bind_ok] at h2; exact h2
+theorem rr_dec_spec (v : ReceiverReport) (h : v.WF) : ReceiverReport.dec (render (Spec.rr v)) = .ok v.quant := by
+  have h1 := C03.rr_wire v h; have h2 := ReceiverReport.roundtrip v h; rw [h1, bind_ok] at h2; exact h2
+theorem sdes_dec_spec (v : SourceDescription) (h : v.WF) : SourceDescription.dec (render (Spec.sdes v)) = .ok v := by
+  have h1 := C03.sdes_wire v h; have h2 := SourceDescription.roundtrip v h; rw [h1, bind_ok] at h2; exact h2
+theorem bye_dec_spec (v : Goodbye) (h : v.WF) : Goodbye.dec (render (Spec.bye v)) = .ok v := by
+  have h1 := C03.bye_wire v h; have h2 := Goodbye.roundtrip v h; rw [h1, bind_ok] at h2; exact h2
+theorem app_dec_spec (v : ApplicationDefined) (h : v.WF) : ApplicationDefined.dec (render (Spec.app v)) = .ok v := by
+  have h1 := C03.app_wire v h; have h2 := ApplicationDefined.roundtrip v h; rw [h1, bind_ok] at h2; exact h2
+theorem nack_dec_spec (v : TransportLayerNack) (h : v.WF) : TransportLayerNack.dec (render (Spec.nack v)) = .ok v := by
+  have h1 := C03.nack_wire v h; have h2 := TransportLayerNack.roundtrip v h; rw [h1, bind_ok] at h2; exact h2
+theorem pli_dec_spec (v : PictureLossIndication) (h : v.WF) : PictureLossIndication.dec (render (Spec.pli v)) = .ok v := by
+  have h1 := C03.pli_wire v h; have h2 := PictureLossIndication.roundtrip v h; rw [h1, bind_ok] at h2; exact h2
+theorem rrr_dec_spec (v : RapidResync) (h : v.WF) : RapidResync.dec (render (Spec.rrr v)) = .ok v := by
+  have h1 := C03.rrr_wire v h; have h2 := RapidResync.roundtrip v h; rw [h1, bind_ok] at h2; exact h2
+theorem fir_dec_spec (v : FullIntraRequest) (h : v.WF) : FullIntraRequest.dec (render (Spec.fir v)) = .ok v := by
+  have h1 := C03.fir_wire v h; have h2 := FullIntraRequest.roundtrip v h; rw [h1, bind_ok] at h2; exact h2
+
+/-! ### (2) forms the library's own encoder never produces -/
+
+/-- a not-received RFC 8888 metric block decodes to "not received" whatever its low 15 bits hold -/
+theorem metric_not_received_stray_bits (hi lo : Nat) (hh : hi < 128) (hl : lo < 256) :
+    CcfbMetric.dec [byte hi, byte lo] = .ok ⟨false, 0, 0⟩ := by
+  simp [CcfbMetric.dec, u8At, get8, byte, Nat.mod_eq_of_lt (show hi < 256 by omega)]
+  omega
+
+/-- FIR entries: the 24 reserved bits are ignored -/
+theorem fir_entry_reserved_ignored (pre post : Bytes) (ssrc sq r1 r2 r3 : Nat) (hs : ssrc < 4294967296) (hq : sq < 256) (gas : Nat) (hg : 0 < gas) :
+    decFIRs (gas + 1) (pre ++ (be32 ssrc ++ [byte sq, byte r1, byte r2, byte r3] ++ post)) pre.length (pre.length + 8)
+      = (decFIRs gas (pre ++ (be32 ssrc ++ [byte sq, byte r1, byte r2, byte r3] ++ post)) (pre.length + 8) (pre.length + 8) >>= fun rest =>
+          .ok (⟨ssrc, sq⟩ :: rest)) := by
+  rw [decFIRs, if_pos (by omega), u32At_of_le (by first | (simp; done) | (simp; omega)), u8At_of_lt (by first | (simp; done) | (simp; omega)), bind_ok, bind_ok]
+  have e1 := get32_at pre ([byte sq, byte r1, byte r2, byte r3] ++ post) ssrc pre.length rfl hs
+  simp only [List.append_assoc] at e1 ⊢
+  rw [e1]
+  have e2 : get8 (pre ++ (be32 ssrc ++ (byte sq :: byte r1 :: byte r2 :: byte r3 :: post))) (pre.length + 4) = sq := by
+    have : pre ++ (be32 ssrc ++ (byte sq :: byte r1 :: byte r2 :: byte r3 :: post)) = (pre ++ be32 ssrc) ++ (byte sq :: (byte r1 :: byte r2 :: byte r3 :: post)) := by simp
+    rw [this, get8_at _ _ _ _ (by simp)]
+    simp; omega
+  simp only [List.cons_append, List.nil_append] at e2 ⊢
+  rw [e2]
+  rfl
+
+/-- BYE without a reason and BYE with a zero-length reason word both decode to an empty reason -/
+theorem bye_zero_length_reason (srcs : List Nat) (h1 : srcs.length ≤ 31) (h2 : ∀ s ∈ srcs, s < 4294967296) :
+    Goodbye.dec ((Header.mk false srcs.length 203 (srcs.length + 1)).bytes ++ encSSRCs srcs ++ [0, 0, 0, 0]) = .ok ⟨srcs, []⟩ := by
+  unfold Goodbye.dec
+  simp only [List.append_assoc]
+  rw [Header.dec_bytes _ _ (by simpa using h1) (by simp) (by simp; omega), bind_ok]
+  rw [if_neg (by simp)]
+  have hlen : ((Header.mk false srcs.length 203 (srcs.length + 1)).bytes ++ (encSSRCs srcs ++ [0, 0, 0, 0])).length = 8 + srcs.length * 4 := by
+    simp [encSSRCs_length]; omega
+  rw [hlen, if_neg (by rw [getPadding_eq_zero (by omega)]; simp)]
+  have hro : (headerLength + srcs.length * ssrcLength) % 256 = 4 + srcs.length * 4 := by simp only [headerLength, ssrcLength]; omega
+  simp only [hro]
+  rw [if_neg (by omega)]
+  have hsrc := decSSRCs_bytes srcs (Header.mk false srcs.length 203 (srcs.length + 1)).bytes [0, 0, 0, 0] h2
+  simp only [Header.bytes_length] at hsrc
+  rw [hsrc, bind_ok, if_pos (by omega)]
+  have hpre : 4 + srcs.length * 4 = ((Header.mk false srcs.length 203 (srcs.length + 1)).bytes ++ encSSRCs srcs).length := by simp [encSSRCs_length]
+  have hre : (Header.mk false srcs.length 203 (srcs.length + 1)).bytes ++ (encSSRCs srcs ++ [0, 0, 0, 0])
+      = ((Header.mk false srcs.length 203 (srcs.length + 1)).bytes ++ encSSRCs srcs) ++ ((0 : UInt8) :: [0, 0, 0]) := by simp
+  rw [hre, u8At_of_lt (by simp [encSSRCs_length]; omega), bind_ok, get8_at _ _ _ _ hpre]
+  simp only [UInt8.toNat_zero, Nat.add_zero]
+  rw [if_neg (by simp [encSSRCs_length]; omega), slice_of_le (by omega) (by simp [encSSRCs_length]; omega), bind_ok]
+  simp
+
+/-! ### (3) inflated counts are rejected -/
+
+theorem sr_count_inflated (b : Bytes) (h : b.length < 28 + 24 * (get8 b 0 % 32)) : ∀ v, SenderReport.dec b ≠ .ok v := by
+  intro v e
+  unfold SenderReport.dec at e
+  split at e
+  · cases e
+  · rename_i hlen
+    obtain ⟨hd, hh, e⟩ := bind_eq_ok.mp e
+    have hf := Header.dec_ok_fields hh
+    split at e
+    · cases e
+    · obtain ⟨body, hb, e⟩ := bind_eq_ok.mp e
+      rw [sliceFrom_of_le (by lomega)] at hb
+      simp at hb
+      obtain ⟨_, _, e⟩ := bind_eq_ok.mp e
+      obtain ⟨_, _, e⟩ := bind_eq_ok.mp e
+      obtain ⟨_, _, e⟩ := bind_eq_ok.mp e
+      obtain ⟨_, _, e⟩ := bind_eq_ok.mp e
+      obtain ⟨_, _, e⟩ := bind_eq_ok.mp e
+      obtain ⟨⟨reps, off⟩, hr, e⟩ := bind_eq_ok.mp e
+      -- the loop needs 24 octets per announced report
+      have key : ∀ n bdy o rs o', o ≤ bdy.length → srDecReports n bdy o = .ok (rs, o') → o + 24 * n ≤ bdy.length := by
+        intro n
+        induction n with
+        | zero => intro bdy o rs o' ho hs; omega
+        | succ n ih =>
+          intro bdy o rs o' ho hs
+          unfold srDecReports at hs
+          split at hs
+          · cases hs
+          · rename_i hle
+            simp at hle
+            obtain ⟨_, _, hs⟩ := bind_eq_ok.mp hs
+            obtain ⟨_, _, hs⟩ := bind_eq_ok.mp hs
+            obtain ⟨⟨rs', o''⟩, hs', _⟩ := bind_eq_ok.mp hs
+            have := ih bdy (o + receptionReportLength) rs' o'' (by simp only [receptionReportLength] at hle ⊢; omega) hs'
+            simp only [receptionReportLength] at this
+            omega
+      have := key _ _ _ _ _ (by rw [← hb]; simp only [srReportOffset]; simp; lomega) hr
+      rw [← hb] at this
+      simp at this
+      omega
+
+theorem bye_count_inflated (b : Bytes) (h : b.length < 4 + 4 * (get8 b 0 % 32)) : ∀ v, Goodbye.dec b ≠ .ok v := by
+  intro v e
+  unfold Goodbye.dec at e
+  obtain ⟨hd, hh, e⟩ := bind_eq_ok.mp e
+  have hf := Header.dec_ok_fields hh
+  split at e
+  · cases e
+  · split at e
+    · cases e
+    · dsimp only at e
+      split at e
+      · cases e
+      · rename_i hro
+        simp only [headerLength, ssrcLength] at hro
+        omega
+
+/-- SDES: the decoder accepts only if the number of chunks it found equals the header count -/
+theorem sdes_count_checked (b : Bytes) (s : SourceDescription) (h : SourceDescription.dec b = .ok s) :
+    s.chunks.length = get8 b 0 % 32 := by
+  have ⟨hst, hv⟩ := Status.toOut_eq_ok h
+  unfold SourceDescription.decP at hst hv
+  cases hh : Header.dec b with
+  | ok hd =>
+    have hf := Header.dec_ok_fields hh
+    simp only [hh] at hst hv
+    split at hst
+    · simp at hst
+    · rename_i ht
+      rw [if_neg ht] at hv
+      cases hc : decChunksP (b.length + 1) (b.drop headerLength) with
+      | mk cs st =>
+        rw [hc] at hst hv
+        dsimp only at hst hv
+        cases st with
+        | ok =>
+          dsimp only at hst hv
+          split at hst
+          · simp at hst
+          · rename_i hcnt
+            rw [if_neg hcnt] at hv
+            simp at hcnt
+            rw [← hv]; simp; omega
+        | err => simp at hst
+        | panic => simp at hst
+        | diverge => simp at hst
+  | err => simp [hh, Out.status] at hst
+  | panic => simp [hh, Out.status] at hst
+  | diverge => simp [hh, Out.status] at hst
+
+/-- RR: a packet that is accepted holds 24 octets for every report the header announces -/
+theorem rr_count_checked (b : Bytes) (v : ReceiverReport) (h : ReceiverReport.dec b = .ok v) :
+    v.reports.length = get8 b 0 % 32 ∧ 8 + 24 * v.reports.length ≤ b.length := by
+  unfold ReceiverReport.dec at h
+  split at h
+  · cases h
+  · rename_i hlen
+    obtain ⟨hd, hh, h⟩ := bind_eq_ok.mp h
+    have hf := Header.dec_ok_fields hh
+    split at h
+    · cases h
+    · obtain ⟨_, _, h⟩ := bind_eq_ok.mp h
+      obtain ⟨⟨reps, rest⟩, hr, h⟩ := bind_eq_ok.mp h
+      have hl := rrDecReports_len hr
+      have hle : ∀ n rest rs r', rrDecReports n rest = .ok (rs, r') → rs.length ≤ n := by
+        intro n
+        induction n with
+        | zero => intro rest rs r' hs; simp [rrDecReports] at hs; simp [hs.1]
+        | succ n ih =>
+          intro rest rs r' hs
+          unfold rrDecReports at hs
+          split at hs
+          · simp at hs; simp [hs.1]
+          · obtain ⟨_, _, hs⟩ := bind_eq_ok.mp hs
+            obtain ⟨⟨rs', r''⟩, hs', hs⟩ := bind_eq_ok.mp hs
+            simp at hs
+            have := ih _ _ _ hs'
+            rw [← hs.1]; simp; omega
+      have hcnt := hle _ _ _ _ hr
+      dsimp only at h
+      obtain ⟨ext, _, h⟩ := bind_eq_ok.mp h
+      split at h
+      · cases h
+      · rename_i hc
+        simp at hc h
+        rw [← h]
+        simp at hl ⊢
+        have : reps.length < 256 := by omega
+        unfold_consts
+        omega
+
+example : (Header.mk false 0 203 1).bytes ++ encSSRCs [] ++ [0, 0, 0, 0] = [0x80, 203, 0, 1, 0, 0, 0, 0] := by decide
+
 end Rtcp.C04
